@@ -351,6 +351,8 @@ def trunc(t):
 class _IntMeta(type):
     def __call__(cls, x=0, *a):
         if isinstance(x, Sym):
+            if type(x).__name__ == 'SymInt':          # integer-valued by its precondition: int() is the identity
+                return x
             return Sym(trunc(x.t))
         return builtins.int(x, *a)
 
